@@ -156,9 +156,10 @@ def _dispatch(model: Model, D: RuleResult):
     """get_pure_function / make_sibling are evaluated abstractly over the kinds of argument the contract distinguishes
     (domains/kinds.py): however the chain of tests is written, each kind must end in its wrapper (with the right object and method)
     or be rejected."""
-    from ..domains.kinds import AObj, outcome, KindInterp, Closure
+    from ..domains.kinds import AObj, outcome, KindInterp, Closure, module_consts
     from ..domains.dictsem import Unsupported, Raised
     f = model.func(PF, "get_pure_function")
+    consts = module_consts(model.modules[PF].tree)
     p = f.params()[0]
 
     def obj(name, *classes):
@@ -193,7 +194,7 @@ def _dispatch(model: Model, D: RuleResult):
     ]
     for arg, want, text in cases:
         try:
-            kind, val = outcome(f.node, {p: arg})
+            kind, val = outcome(f.node, {p: arg}, consts)
         except Unsupported as e:
             D.undecided(f, f.node, "cannot interpret get_pure_function for a %s: %s" % (arg.name, e))
             return
@@ -218,7 +219,7 @@ def _dispatch(model: Model, D: RuleResult):
     for parents, want, text in (((), None, "0 functions -> TypeError"), ((p0,), "SingleSiblingPureFunction", "1 -> SingleSiblingPureFunction(parent, fcntocall=fcn)"),
                                 ((p0, p1), "MultiSiblingPureFunction", ">1 -> MultiSiblingPureFunction(parents, fcntocall=fcn)")):
         try:
-            kind, val = outcome(ms.node, {vp: parents})
+            kind, val = outcome(ms.node, {vp: parents}, consts)
             if kind == "returned" and isinstance(val, Closure):
                 try:
                     val = KindInterp({}).apply(val, [fcn])
